@@ -299,9 +299,14 @@ func (x *X) store(p Pointer, v Value) {
 func (x *X) selectElem(arr *ArrayLoc, idx *T) *T {
 	n := len(arr.E)
 	if n == 0 {
-		x.unsupported("select from empty array")
+		// only reachable with a zero-length access that the path condition excludes
+		return x.zeroValue(arr.Elem).(*T)
 	}
 	if idx.IsConst() {
+		if idx.Val >= uint64(n) {
+			// guarded by a condition that is false on this path (e.g. the tail of a symbolic-length copy)
+			return x.zeroValue(arr.Elem).(*T)
+		}
 		return arr.E[idx.Val].(*ScalarLoc).V.(*T)
 	}
 	// If idx = base + const, restrict nothing; plain chain.
